@@ -146,7 +146,8 @@ func (w *c12World) randomOp(kp *wallet.KeyPair, actors []*wallet.KeyPair) c12Op 
 var (
 	c12ShapesAll = []string{"zero", "fused=base", "fused=base-1", "fused=base+1", "fused=avail", "fused=avail+1", "fused=avail-1",
 		"mix-exact", "mix-pow-short", "mix-fused-short", "mix-fused-over-avail", "false-pow", "small-d-pass", "small-d-fail", "sub-plasma-d",
-		"huge-d-free", "huge-d-fused", "cap", "cap+pow", "cap-mix-exact", "wrap", "fused=max-uint", "old-ack", "fork-higher", "default"}
+		"huge-d-free", "huge-d-fused", "cap", "cap+pow", "cap-mix-exact", "wrap", "fused=max-uint", "old-ack", "fork-higher", "default",
+		"declared-base=fused=base-1", "declared-base=fused=half", "declared-base=1-fused=1", "declared-base=1-pow=1", "declared-base=genuine-fused=base"}
 	c12ShapesPay = []string{"fused=base", "fused=base", "mix-exact", "small-d-pass", "fused=avail", "fused=base+1", "default", "fused=avail+1", "mix-fused-over-avail", "mix-pow-short", "fused=base-1"}
 	c12ShapesCap = []string{"cap", "cap+pow", "cap-mix-exact", "fused=avail", "fused=avail+1", "fused=avail-1", "fused=base", "mix-exact", "mix-fused-over-avail", "wrap", "fused=max-uint", "huge-d-fused"}
 )
@@ -165,6 +166,22 @@ func (w *c12World) buildClaim(shape string, st *c12State, base uint64) (cl c12Cl
 	}
 	switch shape {
 	case "zero", "default":
+	// the fields outside the hash (base and total plasma) as the SENDER declares them: the cost is what the block is,
+	// not what it says
+	case "declared-base=fused=base-1":
+		cl.fused, cl.declBase, cl.declTotal = base-1, base-1, base-1
+	case "declared-base=fused=half":
+		cl.fused, cl.declBase, cl.declTotal = base/2, base/2, base/2
+	case "declared-base=1-fused=1":
+		cl.fused, cl.declBase, cl.declTotal = 1, 1, 1
+	case "declared-base=1-pow=1":
+		nn := needNonce()
+		if pmax(nn) == 0 {
+			return cl, false
+		}
+		cl.nonce, cl.diff, cl.declBase, cl.declTotal = nn.best, c12DiffPerPlasma, 1, 1
+	case "declared-base=genuine-fused=base":
+		cl.fused, cl.declBase, cl.declTotal = base, base, base
 	case "fused=base":
 		cl.fused = base
 	case "fused=base-1":
